@@ -319,14 +319,30 @@ func errStr(err error) string {
 func (a *analysis) names(np NamePair, mstruct *types.Struct, iface *types.Interface) {
 	c := a.c
 	decls := c.MethodDecls(np.Mock)
+	// final qualifiers of the file always count as collisions; the own name of a package that ended up under
+	// another qualifier counts only if the replayed timeline says it was the live qualifier when the parameter was
+	// allocated (or became one later in the same method)
 	quals := map[string]bool{}
+	stale := map[string]bool{}
 	for _, s := range c.Imports() {
-		// both the final qualifier and the package's own name: a name may have been a qualifier when a
-		// parameter was allocated and re-aliased later
 		if s.Name != "" {
 			quals[s.Name] = true
+			if n := a.importedName(s.Path); n != s.Name {
+				stale[n] = true
+			}
+		} else {
+			quals[a.importedName(s.Path)] = true
 		}
-		quals[a.importedName(s.Path)] = true
+	}
+	if a.tl == nil {
+		a.tl = a.buildTimeline()
+	}
+	ifaceIdx := 0
+	for k, x := range a.req.Ifaces {
+		if x == np {
+			ifaceIdx = k
+			break
+		}
 	}
 	// record struct types: field "calls" of the mock
 	var callsStruct *types.Struct
@@ -496,6 +512,14 @@ func (a *analysis) names(np NamePair, mstruct *types.Struct, iface *types.Interf
 			}
 			w := wanted[j]
 			collides := universe[w] || token.IsKeyword(w)
+			if stale[w] && !collides {
+				col, unsure := a.tl.importCollision(ifaceIdx, i, j, w)
+				if col || unsure {
+					collides = true
+				} else {
+					a.f.StaleNameAsserted++
+				}
+			}
 			if c.InPlace && c.SrcPkg.Scope().Lookup(w) != nil {
 				collides = true
 			}
